@@ -21,27 +21,28 @@ LEVEL_TEXT = ('Lean 4 theorems over a line-by-line model of the context stack (C
               '(group_restores / depth_balanced / catcode_local / def_local / let_local / gdef_survives / gdef_replaces_every_level / glet_replaces_every_level / glet_survives / lookup_innermost / pop_obj_exact). '
               'The model is tied to the real Context by exhaustive short and random long operation histories with a full state dump after every operation, '
               'and the document level (who pushes/pops: groups, environments, math, tabular cells, arguments) by generated balanced documents.')
-LEVEL_NOTE = ('Trusted: Lean kernel, correspondence harness (object pool of 6 objects, 3 names, 4 characters), the Python scoping oracle used for prop_ok/search. '
+LEVEL_NOTE = ('Trusted: Lean kernel, correspondence harness (object pool of 7 objects (one of a class that subclasses another pooled class and overrides its local macro), 3 names, 4 characters), the Python scoping oracle used for prop_ok/search. '
               'Not modelled: loadPackage/importMacros, languages, currenvir; which macro pushes/pops what is carried by the document-level stream only.')
 TECHNIQUE = 'Lean 4 proof (induction over balanced operation histories, frame invariant) + exhaustive/seeded differential correspondence on the real Context'
 TRUSTED = ['python oracle harness/props/c04.py:ScopeOracle (abstract scoping semantics for balanced histories)']
 ASSUMPTIONS = ['objects pushed in balanced histories are not document-level (a document-level push resets the stack by design)',
                'category codes 0..15']
-RULE = ('exhaustive: every history of length <= L over 31 concrete operations (L=3 quick, 4 thorough); seeded: random histories up to length 60, half of them balanced by construction; '
+RULE = ('exhaustive: every history of length <= L over 33 concrete operations (L=3 quick, 4 thorough); seeded: random histories up to length 60, half of them balanced by construction; '
         'non-trivial = history contains a push, a pop and at least one definition/let/catcode operation; distinct = distinct request line')
-EXHAUSTIVE = {'quick': 'all histories of length <= 3 over the 31-operation alphabet', 'thorough': 'all histories of length <= 4 over the 31-operation alphabet'}
+EXHAUSTIVE = {'quick': 'all histories of length <= 3 over the 33-operation alphabet', 'thorough': 'all histories of length <= 4 over the 33-operation alphabet'}
 CASE_TIMEOUT = 30
 
 logging.disable(logging.CRITICAL)
 GENERATED = []
 
 # object pool: id, parent, type, modeEnd, docLevel, name
-POOL = [(1, 0, 1, 0, 0, 'foo'), (2, 1, 2, 0, 0, 'bar'), (3, 0, 1, 1, 0, 'foo'), (4, 0, 4, 0, 0, 'endbar'), (5, 0, 5, 0, 1, 'document'), (6, 2, 6, 0, 0, 'baz')]
-LOCALS = {6: [(1, 20)]}
+POOL = [(1, 0, 1, 0, 0, 'foo'), (2, 1, 2, 0, 0, 'bar'), (3, 0, 1, 1, 0, 'foo'), (4, 0, 4, 0, 0, 'endbar'), (5, 0, 5, 0, 1, 'document'), (6, 2, 6, 0, 0, 'baz'),
+        (7, 0, 7, 0, 0, 'bazz')]     # type 7 is a subclass of type 6 that overrides its local macro (eqnarray / eqnarray*)
+LOCALS = {6: [(1, 20)], 7: [(1, 21)]}
 POOLW = ' '.join('o:%d:%d:%d:%d:%d:%s' % (i, p, t, me, dl, ','.join(str(ord(c)) for c in nm)) for i, p, t, me, dl, nm in POOL)
 NAMES, LETS, CHARS = [1, 2, 3], [1, 2], [64, 92, 37, 97]
 
-OPS = ['pu:0', 'pu:1', 'pu:2', 'pu:6:1=20', 'pu:5', 'po:0', 'po:1', 'po:2', 'po:3', 'po:4', 'po:6',
+OPS = ['pu:0', 'pu:1', 'pu:2', 'pu:6:1=20', 'pu:7:1=21', 'pu:5', 'po:0', 'po:1', 'po:2', 'po:3', 'po:4', 'po:6', 'po:7',
        'ag:1:10', 'ag:2:11', 'gd:1:30', 'gd:2:31', 'al:1:12', 'al:2:13', 'lc:1:2', 'lc:3:1', 'lt:1:65', 'lt:2:66', 'gl:1:2', 'gl:3:1', 'gt:1:67', 'gt:2:68',
        'sc:64:11', 'sc:92:12', 'sc:97:14', 'sv', 'lk:1', 'lk:3']
 LOCAL_OPS = [o for o in OPS if not o.startswith(('pu', 'po'))]
@@ -59,9 +60,9 @@ def gen_balanced(rng, depth, budget):
         if budget[0] <= 0:
             break
         if depth < 5 and rng.random() < 0.4:
-            k = rng.choice([0, 0, 1, 2, 6])
+            k = rng.choice([0, 0, 1, 2, 6, 7])
             budget[0] -= 2
-            out.append('pu:%d' % k + (':1=20' if k == 6 else ''))
+            out.append('pu:%d' % k + (':1=20' if k == 6 else ':1=21' if k == 7 else ''))
             out += gen_balanced(rng, depth + 1, budget)
             closer = {1: 3, 2: 4}.get(k) if rng.random() < 0.5 else None   # \end{env} instance / \endname macro
             out.append('po:%d' % (closer or k))
@@ -90,7 +91,7 @@ def gen_paired(rng):
         can_close = [c for c in todo_c if c[1] in opened]
         if todo_o and (not can_close or rng.random() < 0.5):
             _, k = todo_o.pop(0); opened.append(k)
-            out.append('pu:%d' % k + (':1=20' if k == 6 else ''))
+            out.append('pu:%d' % k + (':1=20' if k == 6 else ':1=21' if k == 7 else ''))
         elif can_close:
             c = rng.choice(can_close); todo_c.remove(c); opened.remove(c[1])
             k = c[1]
@@ -154,7 +155,7 @@ def _setup():
             for (n, v) in LOCALS.get(i, []):
                 attrs['loc%d' % n] = val(n, v)
             # type 1 ('foo', closed by its \\end instance) is an Environment class, the others are Commands
-            types[t] = type('T%d' % t, (Environment if t == 1 else Command,), attrs)
+            types[t] = type('T%d' % t, (types[6] if t == 7 else Environment if t == 1 else Command,), attrs)
     _cls.update(val=val, types=types, Macro=Macro)
     return _cls
 
